@@ -12,7 +12,7 @@ PROPERTY = "C06"
 HASH_GROUPS = {"quick": 2, "thorough": 4}
 RULE = (
     "all ordered pairs (S,T) of multisets of <= n finite lattice points; both distances with and "
-    "without matching=True; affine variants; bottleneck additionally under ALL rank orders of the "
+    "without matching=True; affine variants; call sequences on one pair in both argument orders; Mx3 input with an annotation column (bottleneck); bottleneck additionally under ALL rank orders of the "
     "matching routine's string-keyed sets and K real hash seeds. state = (S,T); transition = one "
     "persim call; non-trivial = the returned matching mixes diagonal and cross rows, or different "
     "rank orders returned different (all valid) matchings."
@@ -155,6 +155,32 @@ def run_case(case, ctx):
             certify(ctx, which, A, B, d0, res, tol, what)
             if what == "base":
                 ctx.outcome((which, jsonable_matching(res)))
+    # call sequences on ONE pair in both argument orders, with and without matching: a result remembered
+    # from an earlier call (memo keyed on the unordered pair, reused buffers) must not leak into a later one
+    for which, fn in (("bottleneck", persim.bottleneck), ("wasserstein", persim.wasserstein)):
+        tol = 1e-9 if which == "wasserstein" else 0.0
+        d_st, _ = call_warn(ctx, fn, farr(S), farr(T))
+        d_ts, _ = call_warn(ctx, fn, farr(T), farr(S))
+        for rnd in range(2):
+            res, _ = call_warn(ctx, fn, farr(T), farr(S), matching=True)
+            certify(ctx, which, T, S, d_ts, res, tol, "sequence (S,T);(T,S);(T,S,matching) round %d" % rnd)
+            res, _ = call_warn(ctx, fn, farr(S), farr(T), matching=True)
+            certify(ctx, which, S, T, d_st, res, tol, "sequence ...;(S,T,matching) round %d" % rnd)
+            res, _ = call_warn(ctx, fn, farr(T), farr(S), matching=True)
+            certify(ctx, which, T, S, d_ts, res, tol, "sequence ...;(T,S,matching) again, round %d" % rnd)
+    # extra (annotation) columns beyond (birth, death): the bottleneck pairing cost is the L-infinity distance
+    # of the (b, d) points, so the certificate and the distance are those of the two-column diagrams
+    if S and T:
+        S3 = np.hstack([farr(S), np.arange(len(S), dtype=float).reshape(-1, 1) * 7.0 + 1.0])
+        T3 = np.hstack([farr(T), 50.0 - np.arange(len(T), dtype=float).reshape(-1, 1) * 3.0])
+        d0, _ = call_warn(ctx, persim.bottleneck, farr(S), farr(T))
+        d3, _ = call_warn(ctx, persim.bottleneck, S3, T3)
+        ctx.valid()
+        if not (is_num(d3) and float(d3) == float(d0)):
+            ctx.violation("bottleneck-extra-columns", "bottleneck of Mx3 arrays (third column = annotation) differs from that of their (birth, death) columns",
+                          observed=d3, expected=d0, extra={"S": S3.tolist(), "T": T3.tolist()})
+        res, _ = call_warn(ctx, persim.bottleneck, S3, T3, matching=True)
+        certify(ctx, "bottleneck", S, T, d0, res, 0.0, "Mx3 input with an annotation column")
     # explorer C: the bottleneck matching under every rank order (any optimal matching is fine)
     k = max(len(S), 1) + max(len(T), 1)
     if k <= case.get("rank_bound", 4):
